@@ -64,6 +64,18 @@ func fwConfig(mode string, raw [nKinds]uint32) config.RecursionFirewallConfig {
 		MaxSignatureChecks: raw[4], MaxDSDigests: raw[5], MaxNSEC3Hashes: raw[6], MaxConcurrentCrypto: raw[7]}
 }
 
+// configuredCaps is what the operator asked for: the raw value, or the documented default for
+// a zero. Oracles judge granted work against THIS, not against whatever policy the code derived.
+func configuredCaps(raw [nKinds]uint32) [nKinds]uint32 {
+	d := defaultsFromCode()
+	for i := range raw {
+		if raw[i] == 0 {
+			raw[i] = d[i]
+		}
+	}
+	return raw
+}
+
 func policyCaps(p middleware.RecursionWorkPolicy) [nKinds]uint32 {
 	return [nKinds]uint32{p.MaxOutboundQueries, p.MaxInternalQueries, p.MaxDNSKEYCandidates, p.MaxRRsetSignatureChecks,
 		p.MaxSignatureChecks, p.MaxDSDigests, p.MaxNSEC3Hashes, p.MaxConcurrentCrypto}
@@ -109,6 +121,7 @@ func resStr(err error) string {
 
 var (
 	curPolicy  middleware.RecursionWorkPolicy
+	curCfgCaps [nKinds]uint32 // configured caps of the current ledger case
 	curLedger  *middleware.RecursionWorkLedger // nil when the policy is off (EnsureRecursionWork creates none)
 	curCtx     context.Context
 	releases   []func()
@@ -124,6 +137,7 @@ func ledgerNew(mode string, raw [nKinds]uint32) vlib.Res {
 		return vlib.Res{Impl: "invalid", Oracle: "ok"}
 	}
 	curPolicy = p
+	curCfgCaps = configuredCaps(raw)
 	releases = nil
 	refAccept = [nKinds]uint32{}
 	rejectedK = [nKinds]bool{}
@@ -141,6 +155,10 @@ func ledgerNew(mode string, raw [nKinds]uint32) vlib.Res {
 		if c == 0 {
 			or = fmt.Sprintf("FAIL sig=ledger/new/zero-cap kind=%d", i)
 		}
+		// the policy every pipeline and resolver is built from must grant what was configured
+		if c > curCfgCaps[i] {
+			or = fmt.Sprintf("FAIL sig=ledger/new/policy-grants-more-than-configured kind=%d configured=%d granted=%d", i, curCfgCaps[i], c)
+		}
 	}
 	return vlib.Res{Impl: fmt.Sprintf("mode=%s caps=%s", modeName(p.Mode), u32csv(policyCaps(p))), Oracle: or}
 }
@@ -153,7 +171,7 @@ func ledgerDebit(kind int, bestEffort bool) vlib.Res {
 	// through the context API the resolver uses (DebitRecursionWork), which
 	// also covers the nil-ledger (mode off) path
 	err := middleware.DebitRecursionWork(ctx, middleware.RecursionWorkKind(kind))
-	caps := policyCaps(curPolicy)
+	caps := curCfgCaps
 	or := "ok"
 	switch curPolicy.Mode {
 	case middleware.RecursionWorkEnforce:
@@ -214,7 +232,7 @@ func ledgerSnap() vlib.Res {
 	or := "ok"
 	if curPolicy.Mode == middleware.RecursionWorkEnforce {
 		got := [nKinds]uint32{s.OutboundQueries, s.InternalQueries, 0, 0, s.SignatureChecks, s.DSDigests, s.NSEC3Hashes, 0}
-		caps := policyCaps(curPolicy)
+		caps := curCfgCaps
 		for i := range got {
 			if got[i] > caps[i] {
 				or = fmt.Sprintf("FAIL sig=ledger/snap/counter-past-cap kind=%d", i)
@@ -231,7 +249,7 @@ func ledgerSnap() vlib.Res {
 // storm: real goroutines debiting one fresh ledger concurrently (oracle:
 // accepted ≤ cap, exactly min(total, cap) accepted, counter = accepted).
 func ledgerStorm(g, per, kind, rounds int) vlib.Res {
-	caps := policyCaps(curPolicy)
+	caps := curCfgCaps
 	total := uint32(g * per)
 	want := total
 	if curPolicy.Mode == middleware.RecursionWorkEnforce && caps[kind] < total {
@@ -453,6 +471,16 @@ func (s *stub) ServeDNS(ctx context.Context, ch *middleware.Chain) {
 		ch.Cancel()
 		return
 	}
+	if strings.HasPrefix(req.Question[0].Name, "a") && strings.HasSuffix(req.Question[0].Name, ".alias.test.") {
+		// the resolver's answer is the alias alone; its target is left to the cache's own chase
+		m := new(dns.Msg)
+		m.SetReply(req)
+		m.Answer = []dns.RR{&dns.CNAME{Hdr: dns.RR_Header{Name: req.Question[0].Name, Rrtype: dns.TypeCNAME, Class: dns.ClassINET, Ttl: 60},
+			Target: "t" + req.Question[0].Name[1:]}}
+		_ = ch.Writer.WriteMsg(m)
+		ch.Cancel()
+		return
+	}
 	for i := 0; i < s.debits; i++ {
 		if aggregateKind[s.kind] {
 			_ = middleware.DebitRecursionWork(ctx, middleware.RecursionWorkKind(s.kind))
@@ -471,6 +499,7 @@ type miniPipe struct {
 	st     *stub
 	policy middleware.RecursionWorkPolicy
 	failed map[string]bool // reference: names whose failure may legitimately be cached
+	cfg    [nKinds]uint32  // configured caps
 }
 
 var curPipe *miniPipe
@@ -492,7 +521,7 @@ func pipeNew(mode string, raw [nKinds]uint32) vlib.Res {
 	p := reg.Build(cfg)
 	middleware.VerifL3AutoWire(p)
 	pol := middleware.MustRecursionWorkPolicyFromConfig(cfg.RecursionFirewall)
-	curPipe = &miniPipe{p: p, st: st, policy: pol, failed: map[string]bool{}}
+	curPipe = &miniPipe{p: p, st: st, policy: pol, failed: map[string]bool{}, cfg: configuredCaps(raw)}
 	return vlib.Res{Impl: fmt.Sprintf("mode=%s caps=%s", modeName(pol.Mode), u32csv(policyCaps(pol))), Oracle: "ok"}
 }
 
@@ -523,7 +552,7 @@ func pipeQuery(nameID int, ednsOn, do bool, client string, kind, ndebits int) vl
 	before := mp.st.calls.Load()
 	m := mp.run(name, ednsOn, do, client)
 	reached := mp.st.calls.Load() != before
-	caps := policyCaps(mp.policy)
+	caps := mp.cfg
 	over := mp.policy.Mode == middleware.RecursionWorkEnforce && uint32(ndebits) > caps[kind]
 	or := "ok"
 	code, _, has := edeOf(m)
@@ -554,6 +583,49 @@ func pipeQuery(nameID int, ednsOn, do bool, client string, kind, ndebits int) vl
 		rc = m.Rcode
 	}
 	return vlib.Res{Impl: fmt.Sprintf("rcode=%d ede=%s stub=%s", rc, ede, vlib.B(reached)), Oracle: or, Tags: "nt"}
+}
+
+// pipeAlias: the stub answers a<id>.alias.test. with a bare CNAME to t<id>.alias.test.; resolving the
+// target (inside the cache's own synchronous alias chase) spends ndebits of kind and fails.
+func pipeAlias(id int, ednsOn bool, client string, kind, ndebits int) vlib.Res {
+	mp := curPipe
+	name := fmt.Sprintf("a%d.alias.test.", id)
+	mp.st.kind, mp.st.debits, mp.st.nest = kind, ndebits, false
+	before := mp.st.calls.Load()
+	m := mp.run(name, ednsOn, false, client)
+	calls := int(mp.st.calls.Load() - before)
+	spent := uint32(ndebits)
+	if kind == 1 {
+		spent++ // the chase's own sub-query is an internal query too
+	}
+	over := mp.policy.Mode == middleware.RecursionWorkEnforce && spent > mp.cfg[kind]
+	or := "ok"
+	code, _, has := edeOf(m)
+	switch {
+	case m == nil:
+		or = "FAIL sig=pipe/alias/no-reply"
+	case m.Rcode != dns.RcodeServerFailure:
+		or = fmt.Sprintf("FAIL sig=pipe/alias/rcode rcode=%d", m.Rcode)
+	case calls == 0 && !mp.failed[name]:
+		// served from the shared failure cache although the only failure this name ever had was the budget's
+		or = "FAIL sig=pipe/alias/budget-failure-of-alias-chase-served-from-failure-cache"
+	case calls > 0 && over && ednsOn && !has:
+		or = "FAIL sig=pipe/alias/over-budget-reply-without-ede"
+	case calls > 0 && over && !ednsOn && m.IsEdns0() != nil:
+		or = "FAIL sig=pipe/alias/opt-in-reply-to-non-edns-client"
+	}
+	if calls > 0 && !over {
+		mp.failed[name] = true
+	}
+	ede := "-"
+	if has {
+		ede = strconv.Itoa(code)
+	}
+	rc := -1
+	if m != nil {
+		rc = m.Rcode
+	}
+	return vlib.Res{Impl: fmt.Sprintf("rcode=%d ede=%s stub=%d", rc, ede, calls), Oracle: or, Tags: "nt"}
 }
 
 // subNest: the stub re-enters the internal sub-pipeline from inside its own
@@ -587,7 +659,7 @@ func subNest(mode string, intCap uint32) vlib.Res {
 			errName = "other"
 		}
 	}
-	caps := policyCaps(mp.policy)
+	caps := mp.cfg
 	or := "ok"
 	if depth > 32 {
 		or = fmt.Sprintf("FAIL sig=sub/nest/deeper-than-32 depth=%d", depth)
